@@ -1,11 +1,55 @@
-From Coq Require Import List NArith Bool.
-From NV Require Import Gen.Fat.
+(* C02 -- Requests are served only from the board's configured image, partition, IP. *)
+From Coq Require Import List NArith ZArith Bool String.
+From NV Require Import Lib.Res Lib.PyInt Gen.Boot Boot.Model Boot.Proofs.
+Import ListNotations.
 Open Scope N_scope.
+
+(* BootHandler.resolve_path has the statement structure that Boot/Model.v follows (regenerated
+   from server.py on every run) *)
 Theorem C02_source_facts :
-  (fat12_min_valid, fat12_max_valid, fat12_end_mark) = (2, 4079, 4095) /\
-  (fat16_min_valid, fat16_max_valid, fat16_end_mark) = (2, 65519, 65535) /\
-  (fat32_min_valid, fat32_max_valid, fat32_end_mark) = (2, 268435439, 268435455) /\
-  (fat12_threshold, fat16_threshold) = (4085, 65525) /\ fs_default_atime = false /\
-  de_sizeof = 32 /\ lfn_sizeof = 32 /\ bpb_sizeof = 36 /\ lfn_checksum_standard = true.
+  boot_stmt_parts = true /\ boot_stmt_empty = true /\ boot_stmt_serial = true /\ boot_stmt_rest = true /\
+  boot_stmt_result = true /\ boot_statement_count = 7 /\
+  boot_ip_check_hash = "84287f62913d0dc3"%string /\ boot_image_cache_hash = "34bfe4ddb289e1d9"%string /\
+  boot_maps_image_with_defaults = true.
 Proof. repeat split; reflexivity. Qed.
 Print Assumptions C02_source_facts.
+
+(* for EVERY request string, client and board table: whatever is served comes from the image and
+   partition configured for the board whose serial the first component spells in hexadecimal
+   (the result type cannot even name another volume or a host path), from the configured address *)
+Theorem C02_served_confined : forall boards client parts image part path,
+  boot_resolve boards client parts = Served image part path ->
+  exists p0 b, parts = p0 :: path /\ In b boards /\ py_int16 p0 = Some (b_serial b) /\
+               image = b_image b /\ part = b_partition b /\
+               (b_ip b = None \/ exists a, b_ip b = Some a /\ client = Some a).
+Proof. exact served_confined. Qed.
+Print Assumptions C02_served_confined.
+
+Theorem C02_unknown_not_found : forall boards client parts,
+  (parts = [] \/ exists p0 r, parts = p0 :: r /\
+     (py_int16 p0 = None \/ exists s, py_int16 p0 = Some s /\ find_board s boards = None)) ->
+  boot_resolve boards client parts = NotFound.
+Proof. exact unknown_not_found. Qed.
+Print Assumptions C02_unknown_not_found.
+
+Theorem C02_ip_exact : forall boards client p0 rest b a,
+  py_int16 p0 = Some (b_serial b) -> find_board (b_serial b) boards = Some b -> b_ip b = Some a ->
+  (client = Some a -> boot_resolve boards client (p0 :: rest) = Served (b_image b) (b_partition b) rest) /\
+  (client <> Some a -> boot_resolve boards client (p0 :: rest) = Refused).
+Proof. exact ip_exact. Qed.
+Print Assumptions C02_ip_exact.
+
+Theorem C02_no_ip_served : forall boards client p0 rest b,
+  py_int16 p0 = Some (b_serial b) -> find_board (b_serial b) boards = Some b -> b_ip b = None ->
+  boot_resolve boards client (p0 :: rest) = Served (b_image b) (b_partition b) rest.
+Proof. exact no_ip_served. Qed.
+Print Assumptions C02_no_ip_served.
+
+Example C02_nonvacuous :
+  let bs := [{| b_serial := 4660; b_image := 1; b_partition := 1; b_ip := None |};
+             {| b_serial := 2748; b_image := 1; b_partition := 2; b_ip := Some [10;0;0;5] |}] in
+  boot_resolve bs (Some [10;0;0;6]) [[49;50;51;52]; [99]] = Served 1 1 [[99]] /\
+  boot_resolve bs (Some [10;0;0;6]) [[32;48;88;97;66;99]; [99]] = Refused /\
+  boot_resolve bs (Some [10;0;0;5]) [[97;98;99]; [46;46]; [99]] = Served 1 2 [[46;46]; [99]] /\
+  boot_resolve bs None [[122]] = NotFound.
+Proof. repeat split; reflexivity. Qed.
